@@ -33,6 +33,11 @@ def run(rep, tier, seed):
     cases += big
     obs += core.pmap(fileexec.exec_roundtrip, [(10 ** 4 + i, c, seed) for i, c in enumerate(big)], chunksize=1)
     rep.extra["long_payload_poses"] = sizes
+    if have_bag:        # the bag export of evo_traj (two topics with different frame ids)
+        import evo.main_traj  # noqa: F401
+        cb = [{"fam": "roundtrip", "fmt": "bag", "n": 2 * k, "built": "pq", "src": "cli", "kind": "traj"} for k in ((3, 4) if tier == "quick" else (1, 2, 3, 4, 7, 50))]
+        cases += cb
+        obs += core.pmap(fileexec.exec_cli_bag, [(20000 + i, c, seed) for i, c in enumerate(cb)], chunksize=1)
 
     def probes(traces):
         g = next(t for t in traces if t["o"]["out"] == "ok")
